@@ -35,6 +35,11 @@ pub enum Op {
     /// handles that never were valid in this triangulation
     K2Stale,
     K1RemoveStale,
+    K1InsertStale { c: Vec<f64>, uid: u32 },
+    /// flip_k1_insert of a vertex that carries the UUID of the `of`-th existing vertex
+    K1InsertDupUuid { cell: usize, c: Vec<f64>, of: usize },
+    K3Stale,
+    K2InvStale,
     Repair,
     RepairAdvanced,
     SetVP(u8),
@@ -181,6 +186,18 @@ where
             flip_outcome(dt.flip_k2(FacetHandle::new(ck, *facet)))
         }
         Op::K2Stale => flip_outcome(dt.flip_k2(FacetHandle::new(foreign_cell_key(), 0))),
+        Op::K1InsertStale { c, uid } => flip_outcome(dt.flip_k1_insert(foreign_cell_key(), mk_vertex::<i32, D>(arr::<D>(c), 0x1_0000 + *uid as u128, Some(-2)))),
+        Op::K1InsertDupUuid { cell, c, of } => {
+            let Some(ck) = nth_cell(dt, *cell) else { return Outcome::Err { class: "NoSuchCell".into(), dbg: String::new() } };
+            let Some(uuid) = dt.vertices().nth(*of).map(|(_, v)| v.uuid()) else { return Outcome::Err { class: "NoSuchVertex".into(), dbg: String::new() } };
+            let v = delaunay::core::vertex::Vertex::new_with_uuid(delaunay::geometry::point::Point::new(arr::<D>(c)), uuid, Some(-2));
+            flip_outcome(dt.flip_k1_insert(ck, v))
+        }
+        Op::K3Stale => flip_outcome(dt.flip_k3(RidgeHandle::new(foreign_cell_key(), 0, 1))),
+        Op::K2InvStale => {
+            let Some(a) = nth_vertex(dt, 0) else { return Outcome::Err { class: "NoSuchVertex".into(), dbg: String::new() } };
+            flip_outcome(dt.flip_k2_inverse_from_edge(EdgeKey::new(a, foreign_vertex_key())))
+        }
         Op::K3 { cell, a, b } => {
             let Some(ck) = nth_cell(dt, *cell) else { return Outcome::Err { class: "NoSuchCell".into(), dbg: String::new() } };
             flip_outcome(dt.flip_k3(RidgeHandle::new(ck, *a, *b)))
@@ -308,5 +325,19 @@ where
     }
     ops.push(Op::K2Stale);
     ops.push(Op::K1RemoveStale);
+    if let Some(p) = k1_points.first() {
+        ops.push(Op::K1InsertStale { c: p.to_vec(), uid: uid_base + k1_points.len() as u32 });
+        // duplicate UUID of a vertex of the target cell's neighbourhood (first) and of a far one (last)
+        for c in [0, nc.saturating_sub(1)] {
+            for of in [0, nv.saturating_sub(1)] {
+                let op = Op::K1InsertDupUuid { cell: c, c: p.to_vec(), of };
+                if nc > 0 && nv > 0 && !ops.contains(&op) {
+                    ops.push(op);
+                }
+            }
+        }
+    }
+    ops.push(Op::K3Stale);
+    ops.push(Op::K2InvStale);
     ops
 }
